@@ -284,6 +284,12 @@ class GriffeLoader:
                     # The module can be reached through a re-exported alias: follow it.
                     if next_module.is_alias:
                         next_module = next_module.final_target
+                    # The list can be another module's `__all__` imported under another name
+                    # and imported again from there: follow it to the module it belongs to.
+                    list_name = export.canonical_path.rsplit(".", 1)[-1]
+                    exported_list = next_module.members.get(list_name) if list_name != "__all__" else None
+                    if exported_list is not None and exported_list.is_alias:
+                        next_module = exported_list.final_target.module
                 except (KeyError, AliasResolutionError, CyclicAliasError):
                     logger.debug("Cannot expand '%s', try pre-loading corresponding package", export.canonical_path)
                     continue
